@@ -9,6 +9,7 @@
 import Sidetree.Lemmas.Remarshal
 import Sidetree.Props.C17Reports
 import Sidetree.Props.C07
+import Sidetree.Vdr
 
 namespace Sidetree.Props.C17P
 open Sidetree Sidetree.Json Sidetree.Did Sidetree.Parser Sidetree.Framing Sidetree.Remarshal
@@ -201,5 +202,28 @@ theorem process_result_resolves (H : HashFam) (orc : Oracles) (ns : String) (tex
                 exact DidText.resolve_long H orc ns cop.uniqueSuffix _ c' canon cj cop hns (multihash_no_colon H _ alg _ hsuf)
                   (b64_no_colon _) hpi htv hcj hcop rfl
     · simp [hcreate] at h
+
+/-- **the DID `VDR.Create` returns resolves (`VDR.Read` up to did-go's parsing), to the result
+    `Create` returned** — for every method name and every document whose create request carries
+    no numbers (services without numeric properties) -/
+theorem vdr_create_resolves (H : HashFam) (orc : Oracles) (method : String) (ver : List Vdr.VerEntry)
+    (services : List Client.DocService) (aka : List String) (updateKey recoveryKey : Jwk) (r : Json)
+    (h : Vdr.create H orc method ver services aka updateKey recoveryKey = some r)
+    (hnum : ∀ text j c ty, (Vdr.createRequest H ver services aka updateKey recoveryKey).bind Client.requestText = some text →
+      Parse.parse text.toList = some j → decodeCreate j = some c →
+      ((GoJson.topObject j).bind fun top => GoJson.str top "type") = some ty → RT.numFree (createRequestJson ty c) = true) :
+    ∃ suffix initial, resolve H orc ("did:" ++ method) ("did:" ++ method ++ ":" ++ suffix ++ ":" ++ initial) = some r := by
+  unfold Vdr.create at h
+  cases ht : (Vdr.createRequest H ver services aka updateKey recoveryKey).bind Client.requestText with
+  | none => simp [ht] at h
+  | some text =>
+    simp only [ht] at h
+    cases hj : Parse.parse text.toList with
+    | none => simp [hj, processOperation] at h
+    | some j =>
+      rw [hj] at h
+      obtain ⟨suffix, initial, hr, _, _⟩ := process_result_resolves H orc ("did:" ++ method) _ _ j r
+        (by simp [String.toList_append]) h (fun c ty => hnum text j c ty ht hj)
+      exact ⟨suffix, initial, hr⟩
 
 end Sidetree.Props.C17P
